@@ -24,9 +24,11 @@ RULE = ('scripts of the verification grammar (every whitespace spelling, '
 ASSUMPTIONS = [
     'texts are compared with whitespace removed (the nodes may carry '
     'trailing whitespace)',
-    'labelled known-finding classes: D15 (a parenthesised argument, or a '
-    'single CASE/operation/comparison argument, is missing from '
-    'get_parameters()); bare aliases are only written after names, calls '
+    'labelled known-finding classes: D15 (a single keyword-literal, '
+    'negated, AT TIME ZONE or dollar-operation argument is missing from '
+    'get_parameters()), D22 (lists with typed-literal / unaliased '
+    'parenthesis / dollar items are not one IdentifierList, which also '
+    'truncates get_parameters() of such calls); bare aliases are only written after names, calls '
     'and parentheses (D16: bare alias after a string literal)',
 ]
 
@@ -140,13 +142,12 @@ def check_script(ctx, sc):
             a, b = sp[f][0], sp[c][1]
             want = [squeeze(text[sp[x][0]:sp[y][1]]) for x, y, k in args]
             kinds = [k for x, y, k in args]
-            d15 = any(k in ('paren', 'subq') for k in kinds) or (
-                len(kinds) == 1 and kinds[0] in ('case', 'operation',
-                                                 'operation-x', 'neg',
-                                                 'null', 'bool',
-                                                 'placeholder', 'tz'))
+            d15 = len(kinds) == 1 and kinds[0] in ('operation-x', 'neg',
+                                                   'null', 'bool', 'tz')
             d22a = any(k in ('typed', 'dollar', 'operation-x', 'neg', 'tz')
-                       for k in kinds)
+                       for k in kinds) or (
+                len(kinds) > 1 and any(k in ('paren', 'subq')
+                                       for k in kinds))
             rec.monitor('function_parameters')
             nodes = [n for n in by_start.get(a, [])
                      if isinstance(n, sql.Function)
